@@ -28,7 +28,7 @@ ASSUMPTIONS = ["Redis and RabbitMQ are wire-level fakes speaking the real protoc
                "argument payloads starting with the reserved bucket marker are excluded (per the statement)",
                "inputs a broker refuses loudly at enqueue are counted under refused_inputs, not judged"]
 EVAL_COUNTER = "items_judged"
-REQUIRED = ["items_judged", "jobs_roundtripped", "bucket_transport", "codec_roundtrips", "keys_checked", "durations_over_10y", "reused_bucket_ids", "slow_argument_store_runs"]
+REQUIRED = ["items_judged", "jobs_roundtripped", "bucket_transport", "codec_roundtrips", "keys_checked", "durations_over_10y", "reused_bucket_ids", "slow_argument_store_runs", "job_twins_judged"]
 CASE_TIMEOUT = 150
 
 NAME_FIRST = string.ascii_letters + "_"
@@ -48,6 +48,8 @@ def gen_cases(tier, seed):
     for i in range({"quick": 4, "thorough": 40}[tier]):
         cases.append({"type": "keys", "seed": rnd.randrange(10**6), "n": 400})
     cases.append({"type": "collide", "seed": 1})
+    for i in range({"quick": 6, "thorough": 30}[tier]):
+        cases.append({"type": "jobtwins", "kind": ["mem", "redis", "rabbit"][i % 3], "bucket": ["mem", "redis"][(i // 3) % 2], "seed": rnd.randrange(10**6)})
     for i in range({"quick": 6, "thorough": 60}[tier]):
         cases.append({"type": "reuse", "kind": ["mem", "redis", "rabbit"][i % 3], "seed": rnd.randrange(10**6), "slow": i % 2 == 0})
     return cases
@@ -417,6 +419,67 @@ async def collide_case(loop, out, stats, fps):
                 rig.close()
 
 
+async def jobtwins_case(loop, case, out, stats, fps):
+    """Jobs that share a name and/or an id but are different messages (other queue, priority or name), with their arguments
+    travelling through the argument bucket under the default bucket ids: each consumer-side payload resolves to its own job's
+    arguments, whatever was enqueued in between."""
+    from repid import Job
+    from repid._processor import _Processor
+    from repid.data.priorities import PrioritiesT
+    from repid.message import MessageCategory
+    from rv.rigs import Rig
+
+    kind = case["kind"]
+    rnd = random.Random(case["seed"])
+    rig = Rig(kind, loop, latency=None, seed=case["seed"], record=False)
+    try:
+        conn = rig.make_connection("p1", bucket_kind=case["bucket"])
+        await conn.connect()
+        mb = conn.message_broker
+        for q in ("qa", "qb"):
+            await mb.queue_declare(q)
+        base_id = rid(rnd, 32)
+        table = [("sync", "qa", PrioritiesT.MEDIUM, base_id), ("sync", "qb", PrioritiesT.MEDIUM, base_id), ("sync", "qa", PrioritiesT.HIGH, base_id),
+                 ("sync2", "qa", PrioritiesT.MEDIUM, base_id), ("sync", "qb", PrioritiesT.LOW, base_id), ("sync", "qa", PrioritiesT.MEDIUM, base_id + "x")]
+        rnd.shuffle(table)
+        sent = {}
+        for n, (name, q, prio, id_) in enumerate(table):
+            job = Job(name, queue=q, priority=prio, id_=id_, args={"who": [name, q, prio.value, id_], "n": n}, use_args_bucketer=True, _connection=conn)
+            key, ret_args, _params = await job.enqueue()
+            sent[(key.topic, key.queue, key.priority, key.id_)] = ret_args
+        proc = _Processor(conn)
+        got = {}
+        for q in ("qa", "qb"):
+            cons = mb.get_consumer(q, None, None, MessageCategory.NORMAL)
+            await cons.start()
+            idle = {"mem": 0.05, "redis": 1.5, "rabbit": 0.4}[kind]
+            while True:
+                try:
+                    k2, payload, _p2 = await asyncio.wait_for(cons.consume(), idle)
+                except asyncio.TimeoutError:
+                    break
+                # the argument bucket is read while the other twins are still in flight, as concurrent executions would
+                got.setdefault((k2.topic, k2.queue, k2.priority, k2.id_), []).append((k2, await proc.get_payload(payload)))
+            for ks in list(got.values()):
+                for k2, _ in ks:
+                    if k2.queue == q:
+                        await mb.ack(k2)
+            await cons.finish()
+        for k, want in sent.items():
+            stats["items_judged"] += 1
+            stats["job_twins_judged"] += 1
+            g = got.get(k, [])
+            if len(g) != 1:
+                out.append(V("field_mismatch", kind, "twins/delivery-count", f"job {k} came back {len(g)} times"))
+            elif g[0][1] != want:
+                out.append(V("key_collision", kind, "twins/arguments-of-another-job", f"message {k} was enqueued with arguments {want!r}; its consumer-side payload resolves to {str(g[0][1])[:120]!r}"))
+        fps.add(f"jobtwins/{kind}/{case['bucket']}")
+        await conn.disconnect()
+        stats["unknown_server_commands"] += rig.unknown_commands()
+    finally:
+        rig.close()
+
+
 async def reuse_case(loop, case, out, stats, fps):
     """One long-running worker; jobs enqueued one after another that re-use an argument-bucket id (and a result id)
     with different arguments: every execution must see the arguments of ITS job."""
@@ -506,6 +569,10 @@ def run_case(case):
         codec_case(case, out, stats, fps)
     elif case["type"] == "keys":
         keys_case(case, out, stats, fps)
+    elif case["type"] == "jobtwins":
+        res = vl.run(lambda loop: jobtwins_case(loop, case, out, stats, fps), max_steps=4_000_000, seed=case["seed"])
+        if res.exc is not None:
+            out.append(V("harness_or_api_error", case["kind"], "jobtwins", f"{type(res.exc).__name__}: {res.exc}"))
     elif case["type"] == "reuse":
         res = vl.run(lambda loop: reuse_case(loop, case, out, stats, fps), max_steps=4_000_000, seed=case["seed"])
         if res.exc is not None:
